@@ -302,6 +302,9 @@ package bgv
 //@   dyn op1 *rlwe.Ciphertext
 //@   case len(op0.Value) == 2 && len(op1.Value) == 2 && len(opOut.Value) == 2 && !eval.ScaleInvariant
 //@   case len(op0.Value) == 2 && len(op1.Value) == 2 && len(opOut.Value) == 3 && !eval.ScaleInvariant
+// a receiver of degree 0 is resized like every other (finding F69: its components were read before the resize)
+//@   case len(op0.Value) == 2 && len(op1.Value) == 2 && len(opOut.Value) == 1 && !eval.ScaleInvariant
+//@   safety index
 //@   case len(op0.Value) == 2 && len(op1.Value) == 2 && !eval.ScaleInvariant ; alias opOut = op1
 //@   case len(op0.Value) == 2 && len(op1.Value) == 2 && !eval.ScaleInvariant ; alias opOut = op0
 //@   let T = uf_rnsval(contentid(eval.tMontgomery))
